@@ -6,6 +6,7 @@ mod cmd_layout;
 mod cmd_recon;
 mod cmd_lfdbt;
 mod cmd_adapters;
+mod cmd_orig;
 #[cfg(feature = "matrix")]
 mod cmd_session;
 
@@ -19,6 +20,7 @@ fn main() {
         "recon" => cmd_recon::run(),
         "lfdbt" => cmd_lfdbt::run(),
         "adapters" => cmd_adapters::run(),
+        "orig" => cmd_orig::run(),
         #[cfg(feature = "matrix")]
         "session" => cmd_session::run(),
         "variant" => {
